@@ -1097,6 +1097,18 @@ class PendingClassDef(_PendingCompoundStmt[ClassDef]):
     def get_result(self) -> list[expr]:
         return_list: list[expr] = []
 
+        # decorators are evaluated before the class is created
+        decorator_names: list[Name] = []
+        for dec_expr in self.node.decorator_list:
+            decorator_name = Name(id=ol_name(OL_CLASS_DECORATOR))
+            decorator_names.append(decorator_name)
+            return_list.append(
+                NamedExpr(
+                    target=decorator_name,
+                    value=expr_transf(self.nsp, dec_expr),
+                )
+            )
+
         class_bases = [expr_transf(self.nsp, _expr) for _expr in self.node.bases]
 
         metaclass_expr = None
@@ -1204,6 +1216,19 @@ class PendingClassDef(_PendingCompoundStmt[ClassDef]):
             ],
         )
         return_list.append(load_class)
+
+        # and applied after the class is completed, the last one first
+        for decorator_name in reversed(decorator_names):
+            return_list.append(
+                self.nsp.get_assign(
+                    self.node.name,
+                    Call(
+                        func=decorator_name,
+                        args=[self.nsp.get_load_name(self.node.name)],
+                        keywords=[],
+                    ),
+                )
+            )
         return return_list
 
 
